@@ -12,6 +12,8 @@ def main():
     byprop = {}
     for o in obls:
         byprop.setdefault(o.prop, []).append(o)
+        for p2 in o.also:
+            byprop.setdefault(p2, []).append(o)
     checks = []
     na = []
     for p in props:
